@@ -142,6 +142,7 @@ var identPool = []ident{
 var featPool = []string{"http://jabber.org/protocol/caps", "http://jabber.org/protocol/disco#info", "http://jabber.org/protocol/disco#items", "http://jabber.org/protocol/muc", "a", "a<b", "é", "B"}
 var fieldNames = []string{"os", "ip_version", "Os", ""} // the last one: a field without a var (eg. type fixed): its values still belong to the form
 var valuePool = []string{"ipv6", "ipv4", "a<b"}
+var valuePoolEmpty = []string{"", "ipv4", "a<b"} // the empty value still contributes its separator (XEP-0115 5.1 step 7.3)
 var typePool = []string{"urn:xmpp:dataforms:softwareinfo", "urn:a", "urn:a:b", "urn:a#meta"} // one FORM_TYPE a prefix of two others, continued by a byte above and by one below the separator
 
 // choose an ordered selection without replacement of at most max items out of n.
@@ -167,7 +168,7 @@ func selection(c *nd.Ctx, n, max int, label string) []int {
 	return out
 }
 
-func chooseForm(c *nd.Ctx, maxFields, maxVals int) formSpec {
+func chooseForm(c *nd.Ctx, maxFields, maxVals int, valuePool []string) formSpec {
 	var f formSpec
 	t := c.Choose(len(typePool)+1, "form-type")
 	if t > 0 {
@@ -294,7 +295,7 @@ func idFeatBody(maxN int) nd.Body {
 	}
 }
 
-func formsBody(maxForms, maxFields, maxVals int) nd.Body {
+func formsBody(maxForms, maxFields, maxVals int, valuePool []string) nd.Body {
 	return func(c *nd.Ctx) nd.Result {
 		ids := []ident{identPool[c.Choose(2, "identity")]}
 		feats := []string{featPool[0], featPool[1]}
@@ -302,9 +303,9 @@ func formsBody(maxForms, maxFields, maxVals int) nd.Body {
 		var forms []formSpec
 		for i := 0; i < n; i++ {
 			if n > 1 { // two forms: one field each (the cross product of two full forms is ~10^8)
-				forms = append(forms, chooseForm(c, 1, maxVals))
+				forms = append(forms, chooseForm(c, 1, maxVals, valuePool))
 			} else {
-				forms = append(forms, chooseForm(c, maxFields, maxVals))
+				forms = append(forms, chooseForm(c, maxFields, maxVals, valuePool))
 			}
 		}
 		typeFirst := c.Choose(2, "FORM_TYPE-position") == 0
@@ -457,7 +458,8 @@ func init() {
 			return []drv.Part{
 				{Name: "anchors", Body: anchorsBody, Workers: 1, Budget: budget},
 				{Name: "identities-features", Desc: fmt.Sprintf("ordered selections of <= %d identities x <= %d features", n, n), Body: idFeatBody(n), CutDepth: 3, Budget: budget},
-				{Name: "forms", Desc: fmt.Sprintf("<= 2 forms, <= %d fields, <= %d values", mf, mv), Body: formsBody(2, mf, mv), CutDepth: 4, Budget: budget},
+				{Name: "forms", Desc: fmt.Sprintf("<= 2 forms, <= %d fields, <= %d values", mf, mv), Body: formsBody(2, mf, mv, valuePool), CutDepth: 4, Budget: budget},
+				{Name: "empty-values", Desc: fmt.Sprintf("one form, <= %d fields, <= 3 values from a pool that holds the empty string", mf), Body: formsBody(1, mf, 3, valuePoolEmpty), CutDepth: 4, Budget: budget},
 				{Name: "decoded", Desc: "info values decoded from XML", Body: decodedBody, Workers: 1, Budget: budget},
 			}
 		},
